@@ -128,7 +128,7 @@ func c12MakeJob(c *fw.Ctx, r *fw.Rng, kind, idx int) c12Job {
 			form = "sam"
 		}
 		// overlapping features with equal starts and slippage joins make ties
-		opts := gen.AnnoOpts{MaxFeats: 6, AllowUnnamed: true, AllowSlip: true, SplitCodons: true}
+		opts := gen.AnnoOpts{MaxFeats: 6, AllowUnnamed: true, AllowSlip: true, SplitCodons: true, Rotate: true, NoStop: true}
 		vp := gen.DefaultVarProfile()
 		vp.Recur = true
 		vp.MaxInsSites = 5
@@ -462,7 +462,7 @@ func runC12Binary(c *fw.Ctx, r *fw.Rng, kind, idx int, res *fw.Result) fw.Result
 			name = "snps (binary, stdin)"
 			files["aln.fasta"] = aln
 		default:
-			opts := gen.AnnoOpts{MaxFeats: 5, AllowUnnamed: true, AllowSlip: true, SplitCodons: true}
+			opts := gen.AnnoOpts{MaxFeats: 5, AllowUnnamed: true, AllowSlip: true, SplitCodons: true, Rotate: true, NoStop: true}
 			ac := makeAnnoCase(r, false, []string{"gb", "gff"}[r.Intn(2)], "fasta", gen.DefaultVarProfile(), nrec, opts)
 			recs := append([]gen.FastaRec{{ID: ac.an.RefName, Desc: ac.an.RefName, Seq: ac.msa.RefRow}}, ac.msa.Rows...)
 			msaTxt := gen.RenderFasta(recs, 0)
